@@ -20,7 +20,7 @@ P["C12"] = {"assumptions": [ATL, A["KANI"]], "trusted_base": TB_K, "not_decided"
 P["C13"] = {"assumptions": [A["KANI"], A["FLOAT"], "lyon_geom's Bezier polynomial is executed, not assumed"], "trusted_base": TB_K,
             "not_decided": ["range [0,1] of the non-Back curves for all x (nonlinear in x: no result in 300 s per curve)", "monotonicity and In/Out point-mirror (two-variable nonlinear float relations)"]}
 P["C14"] = {"assumptions": [A["KANI"], A["FLOAT"]], "trusted_base": TB_K,
-            "not_decided": ["betweenness / same-value / nearest for 16..64-bit integer types and f32/f64 over all f32 x (two symbolic float products: no result in 600 s with cadical, kissat or cvc5); 8-bit types are proved for all x in the thorough tier", "monotonicity in x", "glam vector types (component-wise by construction of three macros)"]}
+            "not_decided": ["betweenness / same-value / nearest for 16..64-bit integer types and f32/f64 over all f32 x (two symbolic float products: no result in 600 s with cadical, kissat or cvc5); 8-bit types are proved for all x in the thorough tier", "monotonicity in x", "glam: Vec3A, Vec4, Quat, DQuat (SIMD-backed / delegating to glam's own lerp) are not covered; the other 17 vector types are proved component-wise"]}
 P["C20"] = {"assumptions": [A["A1"], A["KANI"], A["FLOAT"]], "trusted_base": TB_K + TB_V,
             "not_decided": ["debug == release: every proof runs with overflow checks on (debug semantics) and shows no overflow, so both profiles compute the same; native replays run in the debug profile only", "Easing::Custom and Back-family overshoot beyond an integer type's range (documented panic)"]}
 A6T = "A6: Bevy's ECS (queries, Changed<> filtering, system ordering .before(animate), event buffering, Time) is replaced by shims; the per-entity loop bodies of animate/select_animation/chain_animations are extracted byte-for-byte each run (tools/extract_bevy.py) with the loop header turned into a function header and `continue` into `return`"
